@@ -15,13 +15,13 @@ import (
 
 // Program is the loaded SSA of the harness packages and everything below.
 type Program struct {
-	Prog    *ssa.Program
-	Fset    *token.FileSet
-	Pkgs    map[string]*ssa.Package
-	ErrType types.Type
-	Stubs   map[string]*ssa.Function
-	inits   []*ssa.Function
-	HasSelect bool
+	Prog       *ssa.Program
+	Fset       *token.FileSet
+	Pkgs       map[string]*ssa.Package
+	ErrType    types.Type
+	Stubs      map[string]*ssa.Function
+	inits      []*ssa.Function
+	HasSelect  bool
 	InstrKinds map[string]int
 }
 
